@@ -192,8 +192,9 @@ def run_c20(case):
     finally:
         shutil.rmtree(d, ignore_errors=True); shutil.rmtree(d_ref, ignore_errors=True)
 
-case = {'compress': True, 'kinds': ['empty', '2.0'], 'mode': 'server'}
+case = {'compress': False, 'kinds': ['1.0', 'none', 'multi1.0', 'empty'], 'mode': 'server'}
 bad = run_c19(case)
+print("case:", case)
 print("FAIL: " + bad if bad else "PASS")
 sys.stdout.flush()
 os._exit(1 if bad else 0)
